@@ -17,75 +17,9 @@
 (* so the definition is an oracle and not an algorithm; and that the Pratt     *)
 (* loop of src/pest/pratt.py (Pratt below, transcribed) builds it.            *)
 (***************************************************************************)
-EXTENDS Integers, Sequences, FiniteSets, TLC, Json
+EXTENDS OpExprDefs
 
-CONSTANTS MaxToks, MaxPrec, PostfixGuard
-
------------------------------------------------------------------------------
-\* all trees with yield toks[i..j]
-RECURSIVE Trees(_, _, _)
-Trees(toks, i, j) ==
-  IF i > j THEN {}
-  ELSE (IF i = j /\ toks[i].t = "p" THEN {<<"p", i>>} ELSE {})
-       \cup (IF toks[i].t = "pre" THEN {<<"pre", toks[i].n, x>> : x \in Trees(toks, i + 1, j)} ELSE {})
-       \cup (IF toks[j].t = "post" THEN {<<"post", toks[j].n, x>> : x \in Trees(toks, i, j - 1)} ELSE {})
-       \cup UNION {IF toks[k].t = "in"
-                   THEN {<<"in", toks[k].n, l, r>> : l \in Trees(toks, i, k - 1), r \in Trees(toks, k + 1, j)}
-                   ELSE {} : k \in (i + 1)..(j - 1)}
-
-Prec(T, n) == CASE n[1] = "in" -> T.inf[n[2]].p [] n[1] = "pre" -> T.pre[n[2]] [] n[1] = "post" -> T.post[n[2]]
-
-\* n is the LEFT operand of an operator of precedence p: every operator on its right spine
-\* (nodes open on the right: infix, prefix) must bind tighter; a tie is allowed only for an
-\* infix node and only if tieOk (the parent is left associative)
-RECURSIVE RightSpineOk(_, _, _, _)
-RightSpineOk(T, n, p, tieOk) ==
-  IF n[1] \notin {"in", "pre"} THEN TRUE
-  ELSE LET q == Prec(T, n)
-       IN /\ (q > p \/ (q = p /\ n[1] = "in" /\ tieOk))
-          /\ RightSpineOk(T, IF n[1] = "in" THEN n[4] ELSE n[3], p, tieOk)
-\* n is the RIGHT operand: its left spine (infix, postfix)
-RECURSIVE LeftSpineOk(_, _, _, _)
-LeftSpineOk(T, n, p, tieOk) ==
-  IF n[1] \notin {"in", "post"} THEN TRUE
-  ELSE LET q == Prec(T, n)
-       IN /\ (q > p \/ (q = p /\ n[1] = "in" /\ tieOk))
-          /\ LeftSpineOk(T, n[3], p, tieOk)
-
-RECURSIVE Valid(_, _)
-Valid(T, n) ==
-  CASE n[1] = "p"    -> TRUE
-    [] n[1] = "in"   -> LET p == Prec(T, n)  ra == T.inf[n[2]].right
-                        IN /\ RightSpineOk(T, n[3], p, ~ra) /\ LeftSpineOk(T, n[4], p, ra)
-                           /\ Valid(T, n[3]) /\ Valid(T, n[4])
-    [] n[1] = "pre"  -> LeftSpineOk(T, n[3], Prec(T, n), FALSE) /\ Valid(T, n[3])
-    [] n[1] = "post" -> RightSpineOk(T, n[3], Prec(T, n), FALSE) /\ Valid(T, n[3])
-
-ValidTrees(T, toks) == {x \in Trees(toks, 1, Len(toks)) : Valid(T, x)}
-Denoted(T, toks) == CHOOSE x \in ValidTrees(T, toks) : TRUE
-
------------------------------------------------------------------------------
-\* PrattParser.parse_expr transcribed (recursive descent with min_prec); returns [tree, i]
-RECURSIVE PExpr(_, _, _, _), PLoop(_, _, _, _, _)
-PExpr(T, toks, i, minp) ==
-  LET tok == toks[i]
-  IN IF tok.t = "pre"
-     THEN LET r == PExpr(T, toks, i + 1, T.pre[tok.n])
-          IN PLoop(T, toks, <<"pre", tok.n, r.tree>>, r.i, minp)
-     ELSE PLoop(T, toks, <<"p", i>>, i + 1, minp)
-PLoop(T, toks, left, i, minp) ==
-  IF i > Len(toks) THEN [tree |-> left, i |-> i]
-  ELSE LET tok == toks[i]
-       IN IF tok.t = "post"
-          THEN IF PostfixGuard /\ T.post[tok.n] < minp THEN [tree |-> left, i |-> i]
-               ELSE PLoop(T, toks, <<"post", tok.n, left>>, i + 1, minp)
-          ELSE IF tok.t = "in"
-          THEN LET pr == T.inf[tok.n]
-               IN IF pr.p < minp THEN [tree |-> left, i |-> i]
-                  ELSE LET r == PExpr(T, toks, i + 1, pr.p + (IF pr.right THEN 0 ELSE 1))
-                       IN PLoop(T, toks, <<"in", tok.n, left, r.tree>>, r.i, minp)
-          ELSE [tree |-> left, i |-> i]
-Pratt(T, toks) == PExpr(T, toks, 1, 0)
+CONSTANTS MaxToks, MaxPrec
 
 -----------------------------------------------------------------------------
 \* enumeration: tables and well-formed streams
@@ -102,16 +36,6 @@ TableWF(T) == LET I == {T.inf[x].p : x \in DOMAIN T.inf}
                  /\ \A x, y \in DOMAIN T.inf : T.inf[x].p = T.inf[y].p => T.inf[x].right = T.inf[y].right
 Tables == {T \in [inf : InfixTables, pre : PreTables, post : PostTables] : TableWF(T)}
 
-Tok(t, n) == [t |-> t, n |-> n]
-TokSet(T) == {Tok("p", "x")} \cup {Tok("in", n) : n \in DOMAIN T.inf} \cup {Tok("pre", n) : n \in DOMAIN T.pre}
-             \cup {Tok("post", n) : n \in DOMAIN T.post}
-\* well-formedness as a two-state automaton: "want operand" / "have operand"
-RECURSIVE WFFrom(_, _, _)
-WFFrom(toks, i, have) ==
-  IF i > Len(toks) THEN have
-  ELSE LET k == toks[i].t
-       IN IF have THEN (k = "post" /\ WFFrom(toks, i + 1, TRUE)) \/ (k = "in" /\ WFFrom(toks, i + 1, FALSE))
-          ELSE (k = "pre" /\ WFFrom(toks, i + 1, FALSE)) \/ (k = "p" /\ WFFrom(toks, i + 1, TRUE))
 Streams(T) == {s \in UNION {[1..n -> TokSet(T)] : n \in 1..MaxToks} : WFFrom(s, 1, FALSE)}
 
 -----------------------------------------------------------------------------
